@@ -98,7 +98,19 @@ def _operand(dom, form, keyspecs, impl, valspecs=None):
         HOOK.enabled = saved
 
 
+class _IterRaises(object):
+    def __iter__(self):
+        raise ValueError("this iterable cannot be iterated")
+
+
 def _operand_(dom, form, keyspecs, impl, valspecs=None):
+    # operands that are no iterables at all (or refuse to be iterated)
+    if form == "noniter-int":
+        return 5
+    if form == "noniter-none":
+        return None
+    if form == "iter-raises":
+        return _IterRaises()
     ks = [K(dom, k) for k in keyspecs]
     if form == "list":
         return list(ks)
